@@ -297,8 +297,18 @@ Cancel(c) ==
   /\ bypass' = [bypass EXCEPT ![c] = 0]
   /\ UNCHANGED <<acct, changes>>
 
+\* Environment: the network is initialised again (SoulSeekClient.connect() at start and on every
+\* reconnect -> Network.initialize()).  The limits are applied by set_*_speed_limit() /
+\* load_speed_limits() only (USAGE.rst "a method needs to be called before they are applied"):
+\* the limit in force, the limiter objects and the waiting connections are untouched.
+Reinit ==
+  /\ last.ev # "reinit"
+  /\ last' = [ev |-> "reinit", c |-> 0, n |-> 0, g |-> CurIdx]
+  /\ UNCHANGED <<gens, pc, on, rem, queue, since, bypass, acct, changes, cancels, stuck>>
+
 Next ==
   \/ \E c \in Conns : Request(c) \/ Poll(c) \/ Cancel(c)
+  \/ Reinit
   \/ \E d \in Deltas : Tick(d)
   \/ \E k \in Limits : SetLimit(k)
 
